@@ -348,7 +348,8 @@ func (ctx *CheckerContext) SizeOf(typ types.Type) (int64, bool) {
 	if _, ok := typ.(*types.TypeParam); ok {
 		return 0, false
 	}
-	if named, ok := typ.(*types.Named); ok && named.TypeParams() != nil {
+	if named, ok := typ.(*types.Named); ok && named.TypeParams() != nil && named.TypeArgs().Len() == 0 {
+		// A generic type that is not instantiated has no size; P[int] has.
 		return 0, false
 	}
 	return ctx.safeSizesInfoSizeof(typ)
